@@ -70,7 +70,7 @@ def rk_case(rep, name):
 
     cls = getattr(rk, name)
     rep.func(rk.RungeKutta.update_nodes, rk.RungeKutta.compute_end_point, rk.RungeKuttaIMEX.update_nodes,
-             rk.RungeKuttaIMEX.compute_end_point)
+             rk.RungeKuttaIMEX.compute_end_point, rk.RungeKutta.integrate, rk.RungeKuttaIMEX.integrate)
     A, W, AE, WE, imex = rk_tables(cls)
     M = A.shape[0]
     dtv, u0v, li, le = z3.Real('dt'), z3.Real('u0_0'), z3.Real('lamI'), z3.Real('lamE')
@@ -79,7 +79,8 @@ def rk_case(rep, name):
         c.add(dtv > 0)
         sp.DENOMS.clear()
         U, uend, sec, L = rk_run(cls, SymReal(dtv), SymReal(u0v), SymReal(li), SymReal(le), imex)
-        return dict(U=[R(x) for x in U], uend=R(uend), sec=(R(sec) if sec is not None else None), den=list(sp.DENOMS),
+        integ = [R(x[0]) for x in L.sweep.integrate()]
+        return dict(U=[R(x) for x in U], uend=R(uend), sec=(R(sec) if sec is not None else None), den=list(sp.DENOMS), integ=integ,
                     gsa=bool(L.sweep.coll.globally_stiffly_accurate and (not imex or L.sweep.coll_explicit.globally_stiffly_accurate)))
 
     paths = explore(fn)
@@ -113,6 +114,10 @@ def rk_case(rep, name):
             for j in range(M):
                 end_spec = end_spec + dtv * Fpart(U[j], W1[j], W1E[j] if imex else 0.0)
         goals = {'stages': z3.And(eqs), 'end_point': r['uend'] == end_spec}
+        # integration over the nodes returns dt * Q * F(U) with Q the Butcher matrix (IMEX: implicit and explicit tableau on their parts)
+        # (stiffly accurate schemes without an embedded solution do not evaluate the right-hand side at the last stage by design: it stays the zero f_init)
+        last = M - 1 if (r['gsa'] and not embedded) else M
+        goals['integrate'] = z3.And([r['integ'][m] == sum((dtv * Fpart(U[j], A[m, j], AE[m, j] if imex else 0.0) for j in range(last)), rv(0)) for m in range(M)])
         if embedded:
             s2 = u0v
             for j in range(M):
@@ -178,7 +183,13 @@ def rk_triage(rep, cls, name, clause, env, imex):
     except Exception as e:
         rep.unreproduced(f'rk/{name}:{clause}', f'{type(e).__name__}: {e}')
         return
-    if clause == 'stages':
+    if clause == 'integrate':
+        A_, _W, AE_, _WE, _ = rk_tables(cls)
+        a = np.array([float(x[0]) for x in _L.sweep.integrate()])
+        gsa_ = bool(_L.sweep.coll.globally_stiffly_accurate and (not imex or _L.sweep.coll_explicit.globally_stiffly_accurate))
+        last = len(Us) - 1 if (gsa_ and not cls.is_embedded()) else len(Us)
+        b = np.array([env['dt'] * sum((A_[m, j] * env['lamI'] + (AE_[m, j] * env['lamE'] if imex else 0.0)) * Us[j] for j in range(last)) for m in range(len(Us))])
+    elif clause == 'stages':
         a, b = np.array([float(x) for x in Uf]), Us
     elif clause == 'end_point':
         a, b = np.array([float(uef)]), np.array([es])
